@@ -16,14 +16,26 @@ CLAIMED = {
             "runtime monitor: lifecycle replay through the real provisioner + lifecycle controller + kubelet actor with a hostile provider; every pod on a new NodeClaim judged inadmissible on every active existing node (independent oracle, provider ground truth); API read log watched for scheduling passes while a NodeClaim is unlaunched",
             "Pods without inter-pod constraints or preferences are provisioned and deliberately left pending while each created NodeClaim moves at its own pace through created/launched/node-appeared/registered/initialized; provisioning is re-run after every step (3-8 passes per case) and each pod placed on new capacity must be inadmissible on all existing/in-flight nodes with their final load, nodes marked for deletion must not receive pods, and the real Provisioner.Reconcile must not reach a scheduling pass while a claim is unlaunched. Held-on-observed.",
             "Judges 'could admit' with the constraints Karpenter evaluates for the placed copy (first required OR-term, PreferNoSchedule treated as hard) so that only placements wrong under every reading alarm; daemonsets select on NodePool-level labels only; trusts oracle, fake API, provider ground truth."),
+    "C14": ("fault_enumeration", "DESIGN.md §3 C14",
+            "runtime monitoring with per-call fault, crash-point and lost-response enumeration: provider call log (at most one successful Create per UID per controller lifetime, finalizer stored before Create) and a synchronous post-write monitor on NodeClaim status writes (condition order and observable preconditions on the authoritative store), capacity-error deletion monitor",
+            "NodeClaims produced by the real Provisioner are driven by the real lifecycle controller and an emulated kubelet in PRNG orders with fresh or monotonically lagging snapshots; each scenario is run fault-free to enumerate Karpenter's K calls and then once per (error kind, call), per crash point (restart rebuilds all in-memory state incl. the launch cache) and per lost-response write. Launched/Registered/Initialized may only become True in order and with their preconditions true at the instant of the write; capacity errors must delete the claim. Ten mutants caught. Held-on-observed.",
+            "One fault per run; staleness only for the reconciled NodeClaim; 'instance created but error returned' not modelled; trusts fake client merge-patch / optimistic-lock semantics."),
     "C15": ("exploration", "DESIGN.md §3 C15",
             "runtime monitoring of the unmodified hash / scheduler / lifecycle / nodeclaim-disruption controllers with independent oracles: reflection-generated differential hash check, and Kubernetes label-selector semantics over stored labels and annotations for drift; every launch choice the serialized NodeClaim permits is launched",
             "Part (a) walks a randomly populated NodePoolSpec by reflection: every template leaf set to two values must change the hash unless under requirements, permutations and non-template edits never do. Part (b) drives validation-accepted NodePools (CRD+CEL+RuntimeValidate) through the real hash controller, scheduler, Provisioner.Create / static provisioning, lifecycle launch of EVERY permitted (instance type, offering) and the real nodeclaim disruption controller: a fresh claim must not be Drifted. Part (c) edits the pool (violating / benign requirement edits, hashed-field edits, reorders, hash-version scenarios, reverts) and checks Drifted appears exactly when the statement says. One genuine defect fixed (Any() drawing excluded values), three recorded.",
             "One NodePool per world; hash controller always reconciles before the disruption controller; provider IsDrifted kept empty; CRD create rules only."),
+    "C16": ("fault_enumeration", "DESIGN.md §3 C16",
+            "runtime monitor: synchronous PostWrite monitor on every NodeClaim / Node delete attributed by call stack to expiration, garbage collection, liveness or node health, judged against independent trigger oracles on ground truth (un-intercepted store, provider instance table, virtual clock); per-call read-fault enumeration (count K, rebuild, fail read k) plus persistent outages",
+            "Prepared NodeClaim/Node/provider states grown through the real provision->launch->register->initialize pipeline are decided by the real expiration, garbage-collection, lifecycle (liveness) and node-health reconcilers at threshold -1 s / -1 ms / 0 / +1 ms / +1 s on the virtual clock; each decision runs fault-free and then once per read call (API get/list, provider list) x {500, 404, timeout}, plus persistent outages. Every delete issued by a reaper is judged at the instant of the write against the documented trigger. Twelve mutants caught; one genuine defect found and fixed (GC deleting after a failed Node lookup).",
+            "Only the only-if direction is checked (more conservative reapers are invisible); GC worker order is uncontrolled (sticky Node-lookup fault complements the index enumeration); duplicate nodes per claim and write failures not generated."),
     "C17": ("exploration", "DESIGN.md §3 C17",
             "runtime monitoring of the real scheduler on generated inputs: per-reservation holder counts, pins and strict-mode deferrals judged on scheduling.Results and the serialized NodeClaim; DRA allocations judged from Results.DRAClaimAllocationMetadata against the generator's device table; Go race detector (diagnostic)",
             "Generated worlds with dense reserved offerings (ids shared across instance types and weighted pools, capacities 0-3) and DRA populations (exclusive, consumable-capacity and partitionable devices; node-local, cluster-wide and template slices) are scheduled by the real Provisioner.Schedule under parallelism 1/4/8; per reservation id the claims able to launch into it never exceed the smallest advertised capacity, pinned claims carry exactly reserved + a finite compatible id set, strict mode defers instead of falling back, and no exclusive device / shared capacity / counter is over-committed over all co-occurring (NodeClaim, instance type) combinations. 14 of 15 mutants caught. Held-on-observed.",
             "DRA breadth bounded (no request policies, match/distinct-attribute constraints, FirstAvailable/All modes, admin access); single pass only; trusts generators, the admissibility oracle and read-only reflection of the placeholder hostname."),
+    "C18": ("exploration", "DESIGN.md §3 C18",
+            "runtime monitoring with a complete before/after world digest (API objects incl. resourceVersions, write log, provider calls, per-node cluster state incl. unexported maps via read-only reflection, every instance type / offering / requirement incl. slice order, pristine-catalog check), API-call interception, Go race detector (diagnostic)",
+            "On generated clusters grown through the real pipeline, 1-20 consecutive real simulations (SimulateScheduling on candidate subsets, every disruption method's ComputeCommands with real or zero budgets and no StartCommand, Provisioner.Schedule without creating NodeClaims) are run under live, expired, cancelled and API-timeout contexts and the digest is compared before/after; a provisioning pass may only change nominations and pod bookkeeping. Ten of eleven mutants caught (the miss concerns caller-owned pods, outside the digest by design). One genuine defect found and fixed (simulations writing pod bookkeeping).",
+            "The fake client deep-copies on every read, so in-place edits of informer-cache objects obtained with UnsafeDisableDeepCopy cannot be observed; InstanceType's lazy sync.Once cache is excluded as derived data; no static pools / DRA / capacity buffers generated."),
     "C19": ("exploration", "DESIGN.md §3 C19",
             "runtime monitor: real Scheduler.Solve/Truncate/Create on weighted pools; opener pod of each new NodeClaim judged (conservatively) infeasible on every heavier pool; instance types captured at the API boundary priced against the scheduler's pre-truncation options; race detector pass over parallel template evaluation",
             "2-5 weighted NodePools (ties, nil weights) x catalogs with price ties x parallelism 1-16 x lowered MaxInstanceTypes: the pod that opens each NodeClaim must be infeasible on every strictly heavier ready pool under a deliberately conservative single-pod feasibility oracle, and no sent instance type may be dearer (cheapest compatible available offering) than an option that truncation left out. Data races between Karpenter code paths during parallel evaluation count as violations. Held-on-observed.",
@@ -40,6 +52,10 @@ CLAIMED = {
             "runtime monitor: real disruption controller on clusters where every node is attractive and carries at most one blocker; every candidate of every command entering the orchestration queue judged against the statement's conjunction recomputed from the authoritative world (nominations from the harness' own record); blockers also applied during the validation wait",
             "Clusters are made attractive for one mode (all empty / underutilised / drifted / drifted with terminationGracePeriod / mixed) with consolidateAfter 0s/5m/Never, policies WhenEmpty/WhenEmptyOrUnderutilized/Balanced and some uninitialised nodes; each node then gets at most one of 13 blockers or controls (node / pod / daemon-pod / terminal-pod do-not-disrupt in boolean and duration forms incl. expiry boundaries, PDB zero / double / allowing, nominated, deleting, recent pod event) and more are applied during the 15 s validation wait. No command may contain a node the statement excludes; drift may override pod-level blockers only with a terminationGracePeriod. Held-on-observed; evidence lists per (method, blocker) how often blocked nodes were spared.",
             "Static pools / StaticDrift and capacity-buffer placements are not generated (no cell for them); nomination instants are the harness' own record of NominateNodeForPod calls and StartCommand placements; trusts PDB arithmetic of the fake eviction endpoint."),
+    "C08": ("fault_enumeration", "DESIGN.md §3 C08",
+            "runtime monitoring with per-call fault and crash-point enumeration: synchronous monitor on candidate NodeClaim deletes issued by the orchestration queue (judged against the replacements' Initialized condition on the authoritative store), rollback monitor over the API objects and cluster state after failed / crashed actions, double-command monitor",
+            "Scenarios (clusters grown through the real pipeline; drift-with-pods / underutilised / mixed) let the real disruption controller start a command; an orchestration script interleaves queue reconciles with the replacements being launched, registered and initialised by the real lifecycle controller + kubelet actor in PRNG orders, with a replacement vanishing, stalling past the retry deadline, or initialising only after it. Each scenario is replayed with one injected 500 / 409 (/404) at every k-th Karpenter API or provider call from the round that starts the command on, and with a process crash + full in-memory restart at that call, each replay with its own interleaving. No candidate may be deleted before every replacement is Initialized; failed or crashed actions must have deleted nothing and must return candidates to service within 5 fault-free reconciles; no node in two commands. One genuine defect found and fixed.",
+            "Crash = every Karpenter call from call k on fails without effect until the driver restarts all in-memory components (calls happen on worker goroutines, so a panic cannot be recovered at the reconcile boundary); quick enumerates every 3rd call of 16 scenarios; partial replacement-creation leaks are outside the statement."),
     "C10": ("exploration", "DESIGN.md §3 C10",
             "runtime monitoring: API-boundary event-log monitors (eviction sub-resource creates and pod deletes with grace, judged atomically with the write) plus Queue.Has observation over PRNG-interleaved and concurrent drain passes / eviction-queue reconciles; Go race detector",
             "The real node-termination controller, Terminator and eviction queue are executed on generated drain histories (pod mixes over priorities, owners, grace periods, do-not-disrupt forms, tolerations, terminating/terminal states; PDB layouts; NodeClaims with and without terminationGracePeriod; deadline annotation moved later/earlier/removed; pods replaced under the same name; clock swept across D-grace boundaries); every pod-removal call is judged by an independent re-implementation of the statement (removal mode, protected pods, tier ordering, deadline never pushed out). Part of the case list is repeated under the race detector, where a data race between Karpenter paths is a violation. Held-on-observed.",
